@@ -184,6 +184,20 @@ def r3_macro_one_name_per_variant(ctx):
                 cur = nxt
             referents[bb] = ref
     ctx.floor('C18.R3', 'String interpolations in the per-variant templates', len(referents), 2)
+    # the explicit `#[px(profile = "..")]` name is used as written: case conversion applies to the identifier-derived default only
+    conv = [(bb, t) for bb, t in b.calls() if (callee(t) or '').split('::')[-1] in ('to_case', 'to_lowercase', 'to_uppercase', 'to_ascii_lowercase',
+                                                                                   'to_ascii_uppercase', 'to_snake_case', 'to_kebab_case', 'replace', 'trim')]
+    lits = {bb for bb, t in b.calls() if (callee(t) or '').endswith('LitStr::value')}
+    if ctx.need('C18.R3', 'LitStr::value (explicit profile name) in derive_config_profile', lits):
+        bad = []
+        for bb, t in conv:
+            pl = op_place(t['args'][0])
+            sl, _ = backward_slice(b, pl['l'], defs) if pl else ([], set())
+            if any(c.endswith('LitStr::value') for c, _, _ in slice_calls(sl)):
+                bad.append(b.loc(bb, t))
+        ctx.ob('C18.R3', 'explicit-name-unmodified', not bad, bad[0] if bad else b.loc(),
+               'string conversions applied to a value that can come from the explicit `profile = ".."` attribute: %s (the name the user wrote is the name of '
+               'the file and the value of PX_PROFILE)' % (bad or 'none'))
     vals = set(referents.values())
     ctx.ob('C18.R3', 'one-name-per-variant', len(vals) == 1 and None not in vals, b.loc(),
            'String locals interpolated in the per-variant match arms: %s (%s)' % (
